@@ -3,5 +3,8 @@
 P=$1; shift
 git -C /repo diff --quiet || { echo "REPO HAS UNCOMMITTED CHANGES - commit first"; exit 3; }
 cd /repo && git apply $P || { echo "PATCH DOES NOT APPLY"; exit 2; }
+# evidence of runs on the broken tree goes to scratch, never to /verif/evidence
+GOVC_EVIDENCE_DIR=$(mktemp -d /dev/shm/mutev.XXXXXX); export GOVC_EVIDENCE_DIR
 for id in "$@"; do (cd /verif && ./check $id quick 2>&1 | grep -E "VIOLATION|^check|KNOWN" | cut -c1-260); done
 cd /repo && git checkout -- . 
+rm -rf "$GOVC_EVIDENCE_DIR"
